@@ -67,13 +67,20 @@ def closure_const(F, t):
     return None
 
 
-def claimed_divisor(F, atoms, dterm):
+def claimed_divisor(F, atoms, dterm, fn=None):
     """value of the divisor established by the path's positive tests, or None"""
     for term, (rel, val) in atoms:
         truth = (rel == 'notin' and val == (0,)) or (rel == 'eq' and val == 1)
         if not truth:
             continue
         tt = TB.strip_refs(term)
+        if tt[0] == 'bin' and tt[1] == 'Eq' and fn is not None:
+            # checked_neg(d) == Some(k)  (the constant is a promoted Option literal):  d == -k
+            for x, y in ((tt[2], tt[3]), (tt[3], tt[2])):
+                if x[0] == 'call' and re.search(r'checked_neg$', x[1]) and x[2] and x[2][0] == dterm and y[0] == 'promoted':
+                    pv = F.promoted_value(fn, y[1])
+                    if pv and pv[0] == 'some-int':
+                        return -float(pv[1])
         if tt[0] == 'call' and re.search(r'One::is_one$', TB._plain(tt[1])) and tt[2] and tt[2][0] == dterm:
             return 1.0
         if tt[0] == 'bin' and tt[1] == 'Eq' and tt[2] == dterm and lit_value(tt[3]) is not None:
@@ -118,7 +125,7 @@ def shortcut_table(rep, F, rule='R-TABLE'):
             normal_false = any(TB.is_call(t, r'is_normal$') and v == ('eq', 0) for t, v in atoms)
             if normal_false:
                 continue      # non-normal float operand: outside the property
-            c = claimed_divisor(F, atoms, d)
+            c = claimed_divisor(F, atoms, d, fn)
             if prim_div:
                 exp = {1.0: {A}, -1.0: {'neg(%s)' % A}, 2.0: {'half(%s)' % A}, -2.0: {'neg(half(%s))' % A}}
                 if c is not None:
